@@ -81,6 +81,23 @@ def wl_cms(ctx, rng, case):
             total = clamp(total - n, I64MIN, I64MAX)
         else:
             # join with a second near-limit sketch
+            if rng.random() < 0.3:
+                # a join that is REFUSED (other hash strategy, or another geometry) with totals at the limits: nothing may move, nothing may be left unpinned
+                import hashlib as _h
+                other_hf = (lambda key, depth_=1: [int(_h.md5(b"%d|" % i + (key if isinstance(key, bytes) else str(key).encode())).hexdigest()[:15], 16) for i in range(depth_)])
+                bad = type(s)(width=width, depth=depth, hash_function=other_hf) if rng.random() < 0.6 else type(s)(width=width + 1, depth=depth, **bl.kw_hash(hf))
+                (bad.remove if rng.random() < 0.4 else bad.add)(rng.choice(keys), amount(rng, I32MAX))
+                case.op("refused-join")
+                before_s = bytes(s)
+                try:
+                    s.join(bad)
+                    ctx.fail("join of incompatible sketches was accepted")
+                except Exception as e:
+                    if type(e).__name__ != "CountMinSketchError":
+                        raise
+                ctx.check(bytes(s) == before_s and s.elements_added == total, "a refused join changed the receiver (cells or element total)", got=s.elements_added, want=total)
+                ctx.count("refused_joins_at_the_limits")
+                continue
             t = type(s)(width=width, depth=depth, **extra, **bl.kw_hash(hf))
             n2 = amount(rng, I32MAX)
             neg = rng.random() < 0.4 and can_remove
